@@ -281,6 +281,11 @@ func (q vVecQuery) String() string {
 }
 
 func vRunVecQuery(idx VectorIndex, q vVecQuery) ([]VectorResult, error) {
+	return vBuildVecSearch(idx, q).Execute()
+}
+
+// vBuildVecSearch prepares (but does not execute) the search object for q.
+func vBuildVecSearch(idx VectorIndex, q vVecQuery) VectorSearch {
 	s := idx.NewSearch()
 	if q.Node != 0 {
 		s = s.WithNode(q.Node)
@@ -300,7 +305,7 @@ func vRunVecQuery(idx VectorIndex, q vVecQuery) ([]VectorResult, error) {
 	if q.Ef != 0 {
 		s = s.WithEfSearch(q.Ef)
 	}
-	return s.Execute()
+	return s
 }
 
 type vCand struct {
